@@ -33,7 +33,7 @@ ASSUMPTIONS = [
 ALPHABET = "format x scale x placement x density x request"
 BOUND = {"quick": "all formats, 4 scales x 4 placements x 2 densities x 4 requests (where expressible), buffer 8192",
          "thorough": "same with buffers {512, 8192, 65536}"}
-EXPECT_OUTCOMES = ["qcow2", "qcow2-512", "vmdk-hosted", "vmdk-stream", "vmdk-sesparse", "vhdx", "vhd", "vdi", "hds2", "hds1"]
+EXPECT_OUTCOMES = ["qcow2", "qcow2-512", "vmdk-hosted-8m", "qcow2-2m", "vmdk-hosted", "vmdk-stream", "vmdk-sesparse", "vhdx", "vhd", "vdi", "hds2", "hds1"]
 MB = 1 << 20
 GROUPS = 16
 GROUP_UNITS = 400
@@ -46,6 +46,9 @@ FORMATS = {
     "qcow2-512": dict(unit=512, scales={"4g": (1 << 23) + 77, "16g": (1 << 25) + 5}, places=["low", "b32"]),
     "vmdk-hosted": dict(unit=65536, scales={"small": 1 << 14, "4g": (1 << 16) + 77, "limit": (1 << 25) - 1},
                         places=["low", "b32", "top", "gd-ffffffff", "gd-1ffffffff", "gd-7fffffff"]),
+    # allocation units far above the stream buffer: what a small request costs does not follow the unit size the header declares
+    "vmdk-hosted-8m": dict(unit=8 * MB, scales={"small": 4099, "limit": (1 << 18) - 1}, places=["low", "b32"]),
+    "qcow2-2m": dict(unit=2 * MB, scales={"small": 4099, "2t": (1 << 20) + 5}, places=["low", "b32"]),
     "vmdk-stream": dict(unit=65536, scales={"small": 1 << 14, "4g": (1 << 16) + 77, "limit": (1 << 25) - 1},
                         places=["low", "b32", "top"]),
     "vmdk-sesparse": dict(unit=4096, scales={"small": 1 << 16, "4g": (1 << 20) + 77, "2t": (1 << 29) + 5, "limit": 1 << 32},
@@ -373,7 +376,17 @@ def _build(fmt, total, place, placed):
         img, _ = B.build(states, slots, 16, 3, total * unit, 0, total, table_base=tb, data_base=db, comp_pack=True)
         model = B.model(states, 16, total * unit, 0, total)
         return img, model, lambda fh: QCow2(fh)
-    if fmt == "vmdk-hosted":
+    if fmt == "qcow2-2m":
+        from dissect.hypervisor.disk.qcow2 import QCow2
+
+        from mc.builders import qcow2 as B
+
+        states, slots = _dense_lists(placed, total, "N", "U", cap=None, fmt=fmt)
+        tb, db = {"low": (None, None), "b32": ((4 << 30) + (2 << 20), (8 << 30) + (64 << 20))}[place]
+        img, _ = B.build(states, slots, 21, 3, total * unit, 0, total, table_base=tb, data_base=db)
+        model = B.model(states, 21, total * unit, 0, total)
+        return img, model, lambda fh: QCow2(fh)
+    if fmt in ("vmdk-hosted", "vmdk-hosted-8m"):
         from dissect.hypervisor.disk.vmdk import VMDK
 
         from mc.builders import vmdk as B
